@@ -29,7 +29,9 @@ META = {
     "design_ref": "DESIGN.md section 7 (growing the specification); C11, C12",
 }
 
-WA_FILES = ["WriterAdmissionAbs.tla", "WriterAdmissionAbs_proofs.tla", "Apa_WriterAdmission.tla"]
+WA_FILES = ["WriterAdmissionAbs.tla", "WriterAdmissionAbs_proofs.tla", "Apa_WriterAdmission.tla",
+            "WriterAdmission.tla", "WriterAdmissionRef_proofs.tla"]
+PROOF_MODULES = ("WriterAdmissionAbs_proofs", "WriterAdmissionRef_proofs", "VersionedZoneAbs_proofs")
 VZ_FILES = ["VersionedZoneAbs.tla", "VersionedZoneAbs_proofs.tla", "Apa_VersionedZone.tla"]
 APA = "apalache-mc"
 TLAPM = "tlapm"
@@ -50,10 +52,12 @@ def run_tlapm(workdir, module, threads=8, fp=None, timeout=6000):
     fp=<file>: obligations whose fingerprint is in <file> (proved by an earlier from-scratch
     run) are accepted, every other obligation is proved again.  Returns a dict."""
     shutil.rmtree(os.path.join(workdir, ".tlacache"), ignore_errors=True)
-    cmd = [TLAPM, "--cleanfp", "--stretch", "3", "--threads", str(threads), "--toolbox", "0", "0"]
+    cmd = [TLAPM, "--stretch", "3", "--threads", str(threads), "--toolbox", "0", "0"]
     if fp:
         shutil.copy(fp, os.path.join(workdir, "stored.fp"))
-        cmd += ["--usefp", "stored.fp"]
+        cmd += ["--usefp", "stored.fp"]         # (--cleanfp would discard them again)
+    else:
+        cmd += ["--cleanfp"]
     cmd += [module + ".tla"]
     t0 = time.time()
     with tlc._Slots(2):
@@ -172,7 +176,6 @@ REFINEMENTS = {
               ("MC_VersionedZoneRef", "MC_VersionedZoneRef_quick.cfg")],
     "thorough": [("MC_WriterAdmissionRef", "MC_WriterAdmissionRef_quick.cfg"),
                  ("MC_WriterAdmissionRef", "MC_WriterAdmissionRef_thorough.cfg"),
-                 ("MC_WriterAdmissionRef", "MC_WriterAdmissionRef_thorough2.cfg"),
                  ("MC_WriterAdmissionRef", "MC_WriterAdmissionRef_thorough3.cfg"),
                  ("MC_WriterAdmissionAbs", "MC_WriterAdmissionAbs_thorough.cfg"),
                  ("MC_VersionedZoneRef", "MC_VersionedZoneRef_quick.cfg"),
@@ -189,10 +192,13 @@ def stage(ctx, specdir):
 
 
 def generated_proof_is_current(specdir):
-    """specs/WriterAdmissionAbs_proofs.tla must be what tools/x04_genproof.py generates."""
-    gen = os.path.join(core.ROOT, "tools", "x04_genproof.py")
-    p = subprocess.run(["/venv/bin/python", gen, "--stdout", specdir], stdout=subprocess.PIPE, text=True)
-    return p.returncode == 0 and p.stdout == open(os.path.join(specdir, "WriterAdmissionAbs_proofs.tla")).read()
+    """the two generated proof modules must be what their generators produce"""
+    for gen, mod in (("x04_genproof.py", "WriterAdmissionAbs_proofs.tla"), ("x04_genref.py", "WriterAdmissionRef_proofs.tla")):
+        p = subprocess.run(["/venv/bin/python", os.path.join(core.ROOT, "tools", gen), "--stdout", specdir],
+                           stdout=subprocess.PIPE, text=True)
+        if p.returncode != 0 or p.stdout != open(os.path.join(specdir, mod)).read():
+            return False
+    return True
 
 
 def fp_file(specdir, module):
@@ -209,7 +215,7 @@ def prove_all(ctx, specdir, tier, refinements=True, use_fp=None):
     if use_fp is None:
         use_fp = tier == "quick"
     mods = []
-    for m in ("WriterAdmissionAbs_proofs", "VersionedZoneAbs_proofs"):
+    for m in PROOF_MODULES:
         wd = os.path.join(d, "tlaps_" + m)          # one directory each: separate caches
         os.makedirs(wd, exist_ok=True)
         for fn in WA_FILES + VZ_FILES:
@@ -231,7 +237,7 @@ def prove_all(ctx, specdir, tier, refinements=True, use_fp=None):
 def run(ctx):
     specdir = os.environ.get("X04_SPECS", tlc.SPECS)
     if not generated_proof_is_current(specdir):
-        raise core.Machinery("specs/WriterAdmissionAbs_proofs.tla is not what tools/x04_genproof.py generates")
+        raise core.Machinery("a generated proof module in specs/ is not what tools/x04_gen*.py generates")
     tl, ap = prove_all(ctx, specdir, ctx.tier)
     for r in tl:
         ctx.log("tlapm %s: %d/%d obligations proved (%s), %d by stored/duplicate fingerprint, %.0fs" % (
@@ -252,7 +258,8 @@ def run(ctx):
     ctx.distinct = set(range(nontrivial))
     ctx.rule = ("one case = one proof obligation: (a) every leaf obligation tlapm generates from the structured proofs "
                 "of WriterAdmissionAbs_proofs (one per action x conjunct of the inductive invariant, + Init, + "
-                "invariant => properties, + PTL steps) and VersionedZoneAbs_proofs; (b) every Apalache run (base, "
+                "invariant => properties, + PTL steps), WriterAdmissionRef_proofs (one per PlusCal action: it implements an "
+                "abstract step) and VersionedZoneAbs_proofs; (b) every Apalache run (base, "
                 "inductive step, invariant => Safety, and non-vacuity witnesses that must be violated).  Non-trivial = "
                 "discharged by a back end (SMT/Zenon/Isabelle/LS4) or by Apalache, not by tlapm's own simplifier.")
     for r in tl:
@@ -265,7 +272,8 @@ def run(ctx):
         "checker_cmd": "; ".join([r["cmd"] for r in tl] + ["apalache-mc check --cinit=.. --init=IndInit --inv=ApaIndInv --length=1 "
                                                           "Apa_WriterAdmission.tla | Apa_VersionedZone.tla (see apalache_runs)"]),
         "trusted_base": tool_versions() + [
-            "TLC 1.8 (refinement WriterAdmission => WriterAdmissionAbs, VersionedZone => VersionedZoneAbs on bounded instances only)",
+            "TLC 1.8: refinement VersionedZone => VersionedZoneAbs on bounded instances only (RECURSIVE Prune is outside "
+            "TLAPS and Apalache); the refinement WriterAdmission => WriterAdmissionAbs is PROVED (TLAPS) and re-checked by TLC",
             "the correspondence WriterAdmission.tla / VersionedZone.tla <-> dns.versioned is what C12 / C11 establish by trace validation"],
         "tlaps": [{k: r[k] for k in ("module", "obligations", "proved", "by_backend", "cached", "wall_s")} for r in tl],
         "apalache_runs": [{k: r[k] for k in ("tag", "cmd", "expect", "got", "wall_s")} for r in ap],
@@ -277,8 +285,8 @@ def run(ctx):
     ctx.assumptions += [
         "thread ids are non-zero and writers are disjoint from readers / policy threads (ThreadsAssumption)",
         "version ids are natural numbers (IdAssumption)",
-        "the abstractions over-approximate WriterAdmission.tla / VersionedZone.tla: checked by TLC on bounded instances, "
-        "argued by inspection beyond them (identity refinement mapping)",
+        "VersionedZoneAbs over-approximates VersionedZone.tla: checked by TLC on the bounded instances of C11, argued by "
+        "inspection beyond them (identity refinement mapping; PruneRel is what every Prune result satisfies)",
     ]
     if bad:
         raise core.Machinery("proof obligations not discharged:\n" + "\n".join(bad))
